@@ -1,6 +1,8 @@
 import JSight.Sim
 import JSight.SimTrailing
 import JSight.RfcGrammar
+import JSight.RfcGrammarConv
+import JSight.JsonBridge
 /-!
 # C05 — A document is accepted iff it is one RFC 8259 JSON text
 
@@ -11,8 +13,10 @@ cannot continue, accept iff a complete top-level value has been read" for the tr
 Both theorems hold for every byte string, of any length and nesting depth.
 `C05_grammar_accepted`: the recogniser (hence the scanner model) accepts every text the RFC 8259 grammar
 generates — value trees of grammar tokens with layout wherever the grammar allows `ws` (`RfcG.GValid`).
-The converse against the grammar (accepted ⟹ derivable) is not proved; `Rfc.accepts` is validated against
-`encoding/json.Valid` bounded-exhaustively by the harness (`json-exh`).
+`C05_check_iff_grammar`: and conversely every accepted text is such a text — `Document.Check() == nil` iff the
+bytes are `ws value ws` of the RFC 8259 grammar (`RfcG.accepts_iff_grammar`), so the recogniser is no longer a
+trusted reading of the RFC: the grammar (`RfcG.GTok`, `RfcG.GValid`, `TreeEvents.StrBody`, `NumTok.WF`) is.
+`Rfc.accepts` is in addition validated against `encoding/json.Valid` bounded-exhaustively (`json-exh`).
 -/
 namespace Props.C05
 open JsonScan
@@ -34,6 +38,24 @@ theorem C05_grammar_accepted (bs : List UInt8) (v : JA) (hv : RfcG.GValid v) (ws
   unfold Rfc.accepts
   rw [hbs]
   exact RfcG.grammar_accepted v hv ws0 ws1 h0 h1
+
+/-- **C05 against the grammar itself**: strict `Check` accepts exactly the byte strings whose classes are
+`ws value ws` for a value tree of the RFC 8259 grammar — both directions, any length and depth -/
+theorem C05_check_iff_grammar (bs : List UInt8) :
+    check false bs = true ↔
+      ∃ (v : JA) (ws0 ws1 : List Cls), RfcG.GValid v ∧ IsWs ws0 ∧ IsWs ws1 ∧ bs.map classify = ws0 ++ (v.render ++ ws1) := by
+  rw [C05_check_iff_rfc]
+  exact RfcG.accepts_bytes_iff_grammar bs
+
+/-- the span-carrying machine (`Next()` with positions, `Document.Check` as "some lexeme was delivered", used for
+C06 / C14 / C17) accepts exactly what the span-free machine accepts, in both modes: the two models of the one Go
+scanner cannot drift apart -/
+theorem C05_machines_agree (allow : Bool) (bs : List UInt8) : (checkS allow bs).isOk = check allow bs :=
+  checkS_iff_check allow bs
+
+/-- hence `Document.Check` as modelled with positions is the RFC recogniser too -/
+theorem C05_checkS_iff_rfc (bs : List UInt8) : (checkS false bs).isOk = Rfc.accepts bs := by
+  rw [C05_machines_agree, C05_check_iff_rfc]
 
 /-! Non-vacuity / sanity: the spec accepts and rejects what the property names. -/
 def s (x : String) : List UInt8 := x.toList.map (fun c => UInt8.ofNat c.toNat)   -- ASCII literals
